@@ -1,7 +1,7 @@
 (* SpecScf.v - the literal / operator shapes of the Go functions the store-carry-forward model
    (Model/Scf.v) is written against.  Token codes are those of go/token (tools/goconsts adds 1000 to
    unary operators and 2000 to ++/--):  12 +, 13 -, 14 *, 34 &&, 35 ||, 39 ==, 40 <, 41 >, 44 !=,
-   1017 unary &, 1043 unary !, 2037 ++.  Proofs/ConstsOkScf.v proves gen/Consts.v equal to these. *)
+   1017 unary &, 1043 unary !, 2037 ++, 2038 --, 46 >=.  Proofs/ConstsOkScf.v proves gen/Consts.v equal to these. *)
 From Coq Require Import ZArith List.
 Import ListNotations.
 Open Scope Z_scope.
@@ -47,3 +47,8 @@ Definition scf_delete_expired_ops : list Z := [1017; 44; 44].
 
 (* HopCountBlock.IsExceeded: Count > Limit  (scf_hop_exceeded: lim <? cnt + 1 after Increment) *)
 Definition scf_hop_ops : list Z := [41].
+
+(* receive: len(Constraints) > 0 ; the block loop  i := len-1 ; i >= 0 ; i-- ; cb = &blocks[i] ; removal
+   blocks[:i] ++ blocks[i+1:]   (scf_rx_scan: index len-1 down to 0, scf_remove_at i) *)
+Definition scf_receive_ops : list Z := [41; 13; 46; 2038; 1017; 12].
+Definition scf_receive_lits : list Z := [0; 1; 0; 1].
